@@ -544,6 +544,120 @@ fn gen_case(rng: &mut Rng, out: &mut Out, id: String, tier: &str, shapes: bool) 
     }
 }
 
+/// Input-domain family (own generator; the cases above stay what they were). Classes of the real API's
+/// input domain that the families above never produce:
+///   class 0  TIMES     exchange timestamps in any order: decreasing, negative, equal, days / decades apart
+///                      (the families above only ever move time forward by 0..5 ms)
+///   class 1  LOTS      quantities with 8 decimals (1e-8 lots; the families above stop at 1e-4), 8-decimal
+///                      prices and fees, exact closes / mirror flips / remainders in that scale
+///   class 2  REBATES   negative fees in a third of the fills, now and then a price of 0 or below (outside
+///                      the property's quantifier: compared model-vs-code only, the spec stops talking)
+///   class 3  LONG      one position built from 100..400 fills (increases and partial reductions), closed
+///                      exactly, flipped, closed again (the families above stop at 30 / 60 fills per case)
+fn gen_case_dom(rng: &mut Rng, out: &mut Out, id: String, tier: &str, class: u64) {
+    out.case(id);
+    let engine = rng.chance(50);
+    let n = if engine { rng.range(1, 3) as usize } else { 1 };
+    if engine {
+        out.line(format!("init engine {n}"));
+    } else {
+        out.line("init pm");
+    }
+    // Through the Engine every closed position also feeds the tear sheet (pnl return = pnl / (entry price
+    // x max quantity), then Welford's recurrence squares it): a 1e-16 notional with a fee of 0.5 gives a
+    // return of 5e15 whose square overflows rust_decimal and the ENGINE panics in
+    // statistic::algorithm::welford_online (Decimal overflow: not modelled, outside this property's
+    // anchors; witness kept outside the corpus). 1e-8 prices and the 0.5 fee are therefore used on the
+    // bare PositionManager only.
+    const LOT_P_ENGINE: [(i64, u32); 4] = [(12_345_678, 8), (30_000, 0), (2_999_999, 2), (1, 0)];
+    const LOT_F_ENGINE: [(i64, u32); 3] = [(0, 0), (1, 8), (12_345, 8)];
+    const LOT_Q: [i64; 7] = [1, 2, 50, 12_345_678, 100_000_000, 99_999_999, 250_000_000];
+    const LOT_P: [(i64, u32); 6] = [(1, 8), (12_345_678, 8), (30_000, 0), (6_543_210_987, 5), (2_999_999, 2), (1, 0)];
+    const LOT_F: [(i64, u32); 4] = [(0, 0), (1, 8), (5, 1), (12_345, 8)];
+    const GRID_Q8: [i64; 5] = [50_000_000, 100_000_000, 150_000_000, 200_000_000, 300_000_000];
+    const FAR: [i64; 8] = [-86_400_000, -1_000, -1, 0, 1, 1_000, 86_400_000, 1_000_000_000_000];
+    let (qtys, prices, fees): (&[i64], &[(i64, u32)], &[(i64, u32)]) = if class == 1 && engine {
+        (&LOT_Q, &LOT_P_ENGINE, &LOT_F_ENGINE)
+    } else if class == 1 {
+        (&LOT_Q, &LOT_P, &LOT_F)
+    } else {
+        (&GRID_Q8, GRID.prices, GRID.fees)
+    };
+    let len = match class {
+        3 => rng.range(100, if tier == "thorough" { 400 } else { 160 }),
+        _ => rng.range(1, if tier == "thorough" { 60 } else { 30 }),
+    };
+    let close_pct = if class == 3 { 0 } else { *rng.pick(&[15u64, 30, 45]) };
+    let mut nets = vec![0i64; n];
+    let mut time = 0i64;
+    let mut next_id = 1u64;
+    let total = if class == 3 { len + 4 } else { len };
+    for k in 0..total {
+        let slot = if class == 3 { 0 } else { rng.below(n as u64) as usize };
+        let net = nets[slot];
+        let (side_buy, qty) = if class == 3 && k >= len {
+            // tail of a long life: exact close, reopen, mirror flip, exact close
+            match k - len {
+                0 | 3 if net != 0 => (net < 0, net.abs()),
+                2 if net != 0 => (net < 0, net.abs() * 2),
+                _ => (rng.chance(50), *rng.pick(qtys)),
+            }
+        } else if class == 3 && net != 0 {
+            // keep the position open: increase (60 %) or reduce by less than its size
+            if rng.chance(60) || net.abs() <= 50_000_000 {
+                (net > 0, *rng.pick(qtys))
+            } else {
+                (net < 0, *rng.pick(&[50_000_000, net.abs() / 2, net.abs() - 1]))
+            }
+        } else if net != 0 && rng.chance(close_pct) {
+            let q = match rng.below(6) {
+                0 | 1 | 2 => net.abs(),
+                3 => net.abs() * 2,
+                4 => net.abs() + *rng.pick(qtys),
+                _ => (net.abs() / 2).max(1),
+            };
+            (net < 0, q)
+        } else {
+            (rng.chance(50), *rng.pick(qtys))
+        };
+        let (mut pm, ps) = *rng.pick(prices);
+        let (fm, fs) = *rng.pick(fees);
+        let mut fee = dec_str(fm, fs);
+        if class == 2 {
+            if rng.chance(33) && fm != 0 {
+                fee = format!("-{fee}");
+            }
+            // bare manager only: through the Engine a position closed at an average entry price of 0
+            // makes the tear sheet divide by zero (pnl return = pnl / (entry price x quantity); panic)
+            if rng.chance(3) && !engine {
+                pm = if rng.chance(50) { 0 } else { -pm };
+            }
+        }
+        time = match class {
+            0 => match rng.below(10) {
+                0 | 1 => *rng.pick(&FAR),
+                2 | 3 => time, // equal
+                4 | 5 | 6 => time - rng.range(1, 5),
+                _ => time + rng.range(1, 5),
+            },
+            _ => time + if rng.chance(70) { rng.range(1, 5) } else { 0 },
+        };
+        let id = if rng.chance(3) && next_id > 1 {
+            next_id - 1
+        } else {
+            next_id += 1;
+            next_id - 1
+        };
+        out.line(format!(
+            "fill {id} {slot} {time} {} {} {} {fee}",
+            if side_buy { "B" } else { "S" },
+            dec_str(pm, ps),
+            dec_str(qty, 8),
+        ));
+        nets[slot] += if side_buy { qty } else { -qty };
+    }
+}
+
 fn generate(seed: u64, n_cases: usize, tier: &str) {
     let mut out = Out::new();
     let mut rng = Rng::new(seed);
@@ -585,6 +699,18 @@ fn generate(seed: u64, n_cases: usize, tier: &str) {
     for _ in 0..n_cases / 8 {
         id += 1;
         gen_case_exact_huge(&mut extra, &mut out, format!("h{id}"), tier);
+    }
+    // input-domain family (see gen_case_dom), again from a generator of its own
+    let mut dom = Rng::new(seed ^ 0xD0_C02);
+    let n_dom = n_cases / 5 + 3;
+    let n_long = if tier == "thorough" { 40 } else { 3 };
+    for k in 0..n_dom {
+        id += 1;
+        gen_case_dom(&mut dom, &mut out, format!("d{id}"), tier, (k % 3) as u64);
+    }
+    for _ in 0..n_long {
+        id += 1;
+        gen_case_dom(&mut dom, &mut out, format!("l{id}"), tier, 3);
     }
     out.flush();
 }
